@@ -128,4 +128,12 @@ def newRecord (K : Keys) (encode : Node → Bytes) (sk : Nat) (value : Bytes) (s
 def metadata (r : Record) (key : String) : Option CVal :=
   if reservedKeys.contains key then none else lookup r.node key
 
+
+/-- `MetadataExists(key)` -/
+def metadataExists (r : Record) (key : String) : Bool :=
+  if reservedKeys.contains key then false else (lookup r.node key).isSome
+
+/-- `MetadataEntries()`: the node's entries in map order, reserved keys skipped -/
+def metadataEntries (r : Record) : List (String × CVal) := r.node.filter fun e => !reservedKeys.contains e.1
+
 end C26
